@@ -5,7 +5,7 @@ import ShexerModel.Lemmas.TtlLemmas
 object state machine that persists across lines, prefix and base handling, the final classification.
 `Spec/TtlGrammar.lean` is the reader's dialect as data: statement groups (`s p o (, o)* (; p o …)* .`) whose terms are
 written as `<absolute>`, `<relative>`, `pre:local`, `a`, `_:label`, `"…"`, `"…"@tag`, `"…"^^<iri>`, `"…"^^pre:local` or
-an untyped integer; their token stream is cut into physical lines at **arbitrary** token boundaries, every token
+an untyped integer `[+-]?[0-9]+`; their token stream is cut into physical lines at **arbitrary** token boundaries, every token
 preceded by an arbitrary run of blanks (space, tab, CR), lines may end in blanks and a comment, empty lines and
 whole-line comments may be interleaved.
 
@@ -42,5 +42,13 @@ example : ((runBody simpleResolve { ctx := { prefixes := [("ex".toList, "http://
     = some [⟨.iri "http://e.org/s", "http://www.w3.org/1999/02/22-rdf-syntax-ns#type", .iri "http://o.org/C"⟩,
             ⟨.iri "http://e.org/s", "http://e.org/p", .lit "http://www.w3.org/1999/02/22-rdf-syntax-ns#langString"⟩,
             ⟨.iri "http://e.org/s", "http://e.org/p", .lit "http://www.w3.org/2001/XMLSchema#integer"⟩] := by decide +kernel
+
+/-- signed untyped integers are integers (Turtle's INTEGER production) -/
+example : ((runBody simpleResolve {} ["<http://e.org/s> <http://e.org/p> -7 , +3 .".toList]).toOption.map (·.2))
+    = some [⟨.iri "http://e.org/s", "http://e.org/p", .lit "http://www.w3.org/2001/XMLSchema#integer"⟩,
+            ⟨.iri "http://e.org/s", "http://e.org/p", .lit "http://www.w3.org/2001/XMLSchema#integer"⟩] := by decide +kernel
+
+/-- the validity predicate of a signed integer token is satisfiable -/
+example : (TtlGrammar.Elem.int "-7".toList).Valid simpleResolve {} := ⟨['-'], ['7'], rfl, Or.inr (Or.inr rfl), by simp, by decide⟩
 
 end Shexer.C07
